@@ -62,9 +62,10 @@ one kind) is always accepted -/
 theorem classification_total {χ : Type} (given : Option LType) (rows : List (χ × Label))
     (ht : typeOf given rows = some .c)
     (hne : ∀ r ∈ rows, r.2 ≠ .list [])
-    (hk : ∀ d, delistAll rows = .ok d → homogeneous (d.map (·.2)) = true) :
+    (hk : ∀ d, delistAll rows = .ok d → homogeneous (d.map (·.2)) = true)
+    (hcat : firstLevels rows ≠ none → ∀ r ∈ rows, ∀ vs, r.2 ≠ .list vs) :
     ∃ ints, read given rows = .ok ints :=
-  classification_total' given rows ht hne hk
+  classification_total' given rows ht hne hk hcat
 
 example :
     read (χ := Nat) none [(10, .atom (.str "b")), (11, .atom (.str "a")), (12, .list [.str "b"])] =
@@ -72,17 +73,22 @@ example :
            ⟨11, [.str "a", .str "b"], .binary (.atom (.str "a"))⟩,
            ⟨12, [.str "a", .str "b"], .binary (.atom (.str "b"))⟩] := by decide
 
-/-! ### classification, `Categorical` labels (the shortcut of `read`) -/
+/-! ### classification, `Categorical` labels (the shortcut of `read`, with fixes/C14-categorical-unused-levels.diff) -/
 
-/-- with a `Categorical` first label the offered actions are the declared levels, in declared order -/
+/-- with a `Categorical` first label the offered actions are the declared levels that occur among
+the examples, in declared order -/
 theorem actions_eq_cat {χ : Type} (given : Option LType) (rows : List (χ × Label)) (ints : List (Interaction χ))
     (levels : List String)
     (h : read given rows = .ok ints) (ht : typeOf given rows = some .c) (hl : firstLevels rows = some levels) :
-    ∀ x ∈ ints, x.actions = levels.map Val.str :=
+    ∀ x ∈ ints, x.actions.Sublist (levels.map Val.str) ∧
+      ∀ v, v ∈ x.actions ↔ (∃ l ∈ levels, v = .str l) ∧ ∃ r ∈ rows, delist r.2 = .ok v :=
   actions_eq_cat' given rows ints levels h ht hl
 
-theorem cat_actions_nodup (levels : List String) (h : levels.Nodup) : (levels.map Val.str).Nodup :=
-  cat_actions_nodup' levels h
+theorem cat_actions_nodup {χ : Type} (given : Option LType) (rows : List (χ × Label)) (ints : List (Interaction χ))
+    (levels : List String) (hn : levels.Nodup)
+    (h : read given rows = .ok ints) (ht : typeOf given rows = some .c) (hl : firstLevels rows = some levels) :
+    ∀ x ∈ ints, x.actions.Nodup :=
+  cat_actions_nodup' given rows ints levels hn h ht hl
 
 theorem reward_argmax_cat {χ : Type} (given : Option LType) (rows : List (χ × Label)) (ints : List (Interaction χ))
     (levels : List String)
@@ -92,28 +98,22 @@ theorem reward_argmax_cat {χ : Type} (given : Option LType) (rows : List (χ ×
     ∃ v, delist r.2 = .ok v ∧ ∀ a, x.reward.eval (.one a) = .ok (if a = v then 1 else 0) :=
   reward_argmax_cat' given rows ints levels h ht hl i r x hr hx hnl
 
-/- The full statement
-     theorem actions_cat_exact_full … : ∀ x ∈ ints, ∀ v, v ∈ x.actions ↔ ∃ r ∈ rows, delist r.2 = .ok v
-   is false for the code as it is: the shortcut offers every declared level, also one no example
-   carries (known finding C14-F6, `actions_cat_counterexample`).  Proved under the hypothesis
-   that every level occurs: -/
-theorem actions_cat_exact_partial {χ : Type} (given : Option LType) (rows : List (χ × Label))
+/-- "exactly the distinct labels of the data", now at full strength (phase 1 had `actions_cat_exact_partial`
+with the extra hypothesis that every level occurs; the repaired shortcut no longer offers unused levels):
+for well-formed Categorical labels over one level list the actions are exactly the examples' labels -/
+theorem actions_cat_exact {χ : Type} (given : Option LType) (rows : List (χ × Label))
     (ints : List (Interaction χ)) (levels : List String)
     (h : read given rows = .ok ints) (ht : typeOf given rows = some .c) (hl : firstLevels rows = some levels)
-    (hall : ∀ r ∈ rows, ∃ s, r.2 = .cat s levels ∧ s ∈ levels)
-    (hocc : ∀ lv ∈ levels, ∃ r ∈ rows, r.2 = .cat lv levels) :
+    (hall : ∀ r ∈ rows, ∃ s, r.2 = .cat s levels ∧ s ∈ levels) :
     ∀ x ∈ ints, ∀ v, v ∈ x.actions ↔ ∃ r ∈ rows, delist r.2 = .ok v :=
-  actions_cat_exact_partial' given rows ints levels h ht hl hall hocc
+  actions_cat_exact' given rows ints levels h ht hl hall
 
 example : ∀ r ∈ [((), Label.cat "x" ["y", "x"]), ((), Label.cat "y" ["y", "x"])],
     ∃ s, r.2 = .cat s ["y", "x"] ∧ s ∈ ["y", "x"] := by simp
 
-/-- an unused level is offered as an action although it is no example's label -/
-theorem actions_cat_counterexample :
-    ∃ ints, read (χ := Unit) none [((), .cat "a" ["a", "b"])] = .ok ints ∧
-      ∃ x ∈ ints, Val.str "b" ∈ x.actions ∧
-        ¬ ∃ r ∈ [((), Label.cat "a" ["a", "b"])], delist r.2 = .ok (.str "b") := by
-  refine ⟨_, rfl, _, List.mem_cons_self, by decide, by decide⟩
+/-- the level `b` no example carries is not offered (it was, before the repair: finding C14-F6) -/
+example : read (χ := Unit) none [((), .cat "a" ["b", "a"])] =
+    .ok [⟨(), [.str "a"], .binary (.cat "a" ["b", "a"])⟩] := by decide
 
 /-! ### regression -/
 
@@ -227,5 +227,113 @@ theorem explicit_type_wins {χ : Type} (t : LType) (tipe : Option LType) (r : χ
 theorem source_type_used {χ : Type} (t : LType) (r : χ × Label) (rest : List (χ × Label)) :
     typeOf (resolveGiven none (some t)) (r :: rest) = some t :=
   source_type_used' t r rest
+
+/-! ## Phase 2 -/
+
+/-! ### label-type inference (`label_type=None`, rows without their own `tipe`) -/
+
+/-- regression exactly for a number (`int`, `float`, also `bool`, which is an `int` in Python:
+`True`/`False` are the targets 1/0), classification for everything else — strings, Categoricals
+and list-valued labels (delisted to their first member); multi-label is never inferred -/
+theorem inference_spec (first : Label) :
+    (inferType none first = .r ↔ ∃ q, first = .atom (.num q)) ∧
+    (inferType none first = .c ↔ ¬ ∃ q, first = .atom (.num q)) ∧
+    inferType none first ≠ .m :=
+  inference_spec' first
+
+/-! ### multi-label with repeated members: the exact relation of `HammingReward` to the Jaccard index -/
+
+/-- for arbitrary lists: the numerator is |A∩Y| plus the repeats of the action's members that are
+true labels; the denominator is |A∪Y| plus the repeats inside the true label list plus the repeats
+of the action's members that are not true labels -/
+theorem hamming_multiset_formula (ys as : List Val) :
+    nIntersect ys as = (as.toFinset ∩ ys.toFinset).card +
+        ((as.filter (fun a => ys.contains a)).length - (as.toFinset ∩ ys.toFinset).card) ∧
+    nUnion ys as = (as.toFinset ∪ ys.toFinset).card + (ys.length - ys.toFinset.card) +
+        ((as.filter (fun a => !ys.contains a)).length - (as.toFinset \ ys.toFinset).card) :=
+  hamming_multiset_formula' ys as
+
+/-- an action without repeats against a label list with repeats: only the denominator is off,
+by the number of repeats in the label list (so the reward is ≤ the Jaccard index, < when A∩Y ≠ ∅) -/
+theorem hamming_nodup_action (ys as : List Val) (ha : as.Nodup) :
+    nIntersect ys as = (as.toFinset ∩ ys.toFinset).card ∧
+    nUnion ys as = (as.toFinset ∪ ys.toFinset).card + (ys.length - ys.toFinset.card) :=
+  hamming_nodup_action' ys as ha
+
+/-! ### the whole statement as one predicate (`MeetsStatement`, Lemmas/C14) -/
+
+theorem read_meets_statement {χ : Type} (given : Option LType) (exs : List (χ × Label)) (ints : List (Interaction χ))
+    (h : read given exs = .ok ints) : MeetsStatement given exs ints :=
+  read_meets_statement' given exs ints h
+
+/-- a simulation over a dense table: the examples are the rows split at the label column and the statement holds for them -/
+theorem dense_meets (given : Option LType) (ind : Int) (table : List (List Label))
+    (ints : List (Interaction (List Label))) (h : simDense given none ind table = .ok ints) :
+    ∃ exs, DenseSplit ind table exs ∧ MeetsStatement given exs ints :=
+  dense_meets' given ind table ints h
+
+/-! ### `take`: Algorithm L of the C09 model, seed 1 -/
+
+/-- the interactions are those of the reservoir's sample, in sample order; the sample is a
+sub-multiset of the examples of size `min k n`; and the action set (and every other clause) is
+that of the *sample*: "the data" of a simulation with `take` are the sampled examples -/
+theorem take_sample_spec {χ : Type} (given : Option LType) (k : Nat) (steps : List C09.Step)
+    (rows : List (χ × Label)) (ints : List (Interaction χ)) (h : simPairsS given k steps rows = .ok ints) :
+    ∃ sample, C09.reservoir (some k) false (C05.normInt 1) steps rows = .ok sample ∧
+      sample.Subperm rows ∧ sample.length = min k rows.length ∧
+      read given sample = .ok ints ∧ MeetsStatement given sample ints :=
+  take_sample_spec' given k steps rows ints h
+
+/-! ### end to end: text written by a canonical writer → reader (C12 model) → LabelRows → read -/
+
+/-- CSV (any delimiter, RFC 4180 quoting, optional header; C12's `csvRowOk`): the interactions meet
+the statement for the written table split at the label column -/
+theorem end_to_end_csv (delim : Nat) (hd1 : delim ≠ C12.DQ) (hd2 : C12.isNl delim = false) (hasHeader : Bool)
+    (rows : List (List (Bool × C12.Text))) (hok : ∀ r ∈ rows, C12.csvRowOk r = true)
+    (ind : Int) (given : Option LType) (ints : List (Interaction (List Label)))
+    (h : csvSim delim hasHeader (.index ind) given (rows.map (C12.csvWriteRow delim)) = .ok ints) :
+    ∃ exs, DenseSplit ind (((rows.map (·.map (·.2))).drop (if hasHeader then 1 else 0)).map (·.map textLabel)) exs ∧
+      MeetsStatement given exs ints :=
+  end_to_end_csv' delim hd1 hd2 hasHeader rows hok ind given ints h
+
+/-- `a,1` / `b,"2"` with the label in column 0 -/
+example : csvSim 44 false (.index 0) none
+    ([[(false, [97]), (false, [49])], [(false, [98]), (true, [50])]].map (C12.csvWriteRow 44)) =
+  .ok [⟨[textLabel [49]], [.str "a", .str "b"], .binary (.atom (.str "a"))⟩,
+       ⟨[textLabel [50]], [.str "a", .str "b"], .binary (.atom (.str "b"))⟩] := by decide +kernel
+
+/-- `0,1 1:2` / `1` as multi-label data -/
+example : (libsvmSim (some .m) ([⟨[[48], [49]], [([49], [50])]⟩, ⟨[[49]], []⟩].map C12.svmWriteRow)).toOption.map (·.map (·.actions)) =
+  some [[.str "0", .str "1"], [.str "0", .str "1"]] := by decide +kernel
+
+/-- LibSVM (C12's `svmRowOk`): examples = (feature tokens, list of label strings) per written row -/
+theorem end_to_end_libsvm (rows : List C12.SvmRow) (hok : ∀ r ∈ rows, C12.svmRowOk r = true)
+    (given : Option LType) (ints : List (Interaction (List (C12.Text × C12.Text))))
+    (h : libsvmSim given (rows.map C12.svmWriteRow) = .ok ints) :
+    MeetsStatement given (rows.map svmPair) ints :=
+  end_to_end_libsvm' rows hok given ints h
+
+/-- Manik: the same after the metadata line -/
+theorem end_to_end_manik (first : C12.Text) (rows : List C12.SvmRow) (hok : ∀ r ∈ rows, C12.svmRowOk r = true)
+    (given : Option LType) (ints : List (Interaction (List (C12.Text × C12.Text))))
+    (h : manikSim given (first :: rows.map C12.svmWriteRow) = .ok ints) :
+    MeetsStatement given (rows.map svmPair) ints :=
+  end_to_end_manik' first rows hok given ints h
+
+/-- dense ARFF (header and data lines in one quote style; C12's `AttrW.ok`, `arffRowOk`): the written
+values, encoded by the written attribute types, split at the label column, meet the statement.
+Partial in the sense of C12: the hypotheses are those forced by C12-F8/F9/F11.
+theorem end_to_end_arff_sparse (sparse data lines)   -- not proved: C12 has the row-level sparse round trip only -/
+theorem end_to_end_arff_dense (q : Nat) (hq : q = C12.SQ ∨ q = C12.DQ) (also : Nat → Bool)
+    (attrs : List C12.AttrW) (hattr : ∀ a ∈ attrs, a.ok true = true) (hnd : (attrs.map (·.name.2)).Nodup)
+    (rows : List (Nat × List (Bool × C12.Text)))
+    (hrows : ∀ r ∈ rows, C12.arffRowOk q r.2 = true ∧ r.2.length = attrs.length)
+    (ind : Int) (given : Option LType) (ints : List (Interaction (List Label)))
+    (h : arffDenseSim (.index ind) given (attrs.map (·.line q also))
+          (rows.map (fun r => C12.arffWriteRow q also r.1 r.2)) = .ok ints) :
+    ∃ cells table, encodeRows (attrs.map (·.typ.enc true)) (rows.map (·.2.map (·.2))) = .ok cells ∧
+      rowsLabels cells = .ok table ∧
+      ∃ exs, DenseSplit ind table exs ∧ MeetsStatement given exs ints :=
+  end_to_end_arff_dense' q hq also attrs hattr hnd rows hrows ind given ints h
 
 end Coba.C14
